@@ -153,6 +153,8 @@ pub struct Mon {
     pub s2n: BTreeSet<BlockId>,
     pub s2s: BTreeSet<u64>,
     pub votes: BTreeMap<u64, Vec<VRec>>,
+    /// highest slot of a Final / FastFinal certificate handed to Votor
+    pub max_final_cert: u64,
 }
 
 impl Mon {
@@ -162,6 +164,7 @@ impl Mon {
         self.notar_certs.hash(h);
         self.s2n.hash(h);
         self.s2s.hash(h);
+        self.max_final_cert.hash(h);
         for (s, v) in &self.votes {
             s.hash(h);
             v.hash(h);
@@ -181,6 +184,9 @@ impl Mon {
             }
             PoolEvent::CertCreated(Cert::Notar(c)) => {
                 self.notar_certs.insert((Cert::Notar(c.clone()).slot(), c.block_hash().clone()));
+            }
+            PoolEvent::CertCreated(c @ (Cert::Final(_) | Cert::FastFinal(_))) => {
+                self.max_final_cert = self.max_final_cert.max(c.slot().inner());
             }
             _ => {}
         }
@@ -356,6 +362,8 @@ pub struct NodeSys {
     pub prefix: Vec<u16>,
     /// Some(P): report only crashes of the node core, under keys of property P (C10).
     pub crash_focus: Option<&'static str>,
+    /// Check in every settled state that every votable block was voted for (C02, see `check_obligations`).
+    pub obligations: bool,
 }
 
 pub struct NodeWorld {
@@ -401,6 +409,7 @@ impl NodeSys {
             persona: Vec::new(),
             prefix: Vec::new(),
             crash_focus: None,
+            obligations: false,
         }
     }
 
@@ -582,6 +591,48 @@ impl NodeSys {
 }
 
 impl NodeSys {
+    /// Progress obligation of one node (C02): a block that is the only one the node received for
+    /// its slot (a correct leader's) and whose parent condition holds - first slot of a window: Votor
+    /// was told ParentReady for exactly its parent; later slot: the node itself notarized its parent
+    /// in the previous slot - must have been voted for, unless the node had already voted in the slot
+    /// (timeout, skipped window) or holds a finalization certificate for that or a later slot.
+    /// Holds in every settled state whatever the order of blocks, certificates and timeouts.
+    fn check_obligations(&self, w: &NodeWorld, out: &mut StepOutcome) {
+        let mut per_slot: BTreeMap<u64, Vec<(Blk, Blk)>> = BTreeMap::new();
+        for (i, (b, p)) in self.alpha.blocks.iter().enumerate() {
+            if w.blocks_delivered[i] {
+                per_slot.entry(b.slot).or_default().push((*b, *p));
+            }
+        }
+        for (s, bs) in per_slot {
+            if bs.len() != 1 || s <= w.mon.max_final_cert {
+                continue;
+            }
+            let (b, p) = bs[0];
+            let voted = w.mon.votes.get(&s).is_some_and(|v| v.iter().any(|r| matches!(r, VRec::Notar(_) | VRec::Skip)));
+            if voted {
+                continue;
+            }
+            let first = s % alpenglow::types::SLOTS_PER_WINDOW == 0;
+            let votable = if first {
+                w.mon.parent_ready.contains(&(s, blk_id(p)))
+            } else {
+                // the genesis block counts as notarized by everybody
+                p.slot + 1 == s && (p == GENESIS || w.mon.votes.get(&p.slot).is_some_and(|v| v.contains(&VRec::Notar(blk_hash(p)))))
+            };
+            if votable {
+                out.push(
+                    format!("C02:votable-block-not-voted:{}", if first { "first-slot-of-window" } else { "later-slot" }),
+                    format!(
+                        "the node holds block (s{},b{}) on parent (s{},b{}), its parent condition holds ({}), it has not voted in slot {s} and holds no finalization certificate at or above it - yet it has not voted notar",
+                        b.slot, b.idx, p.slot, p.idx,
+                        if first { "ParentReady was handed to Votor" } else { "own notar vote for the parent" }
+                    ),
+                );
+            }
+        }
+    }
+
     pub fn init_bare(&self) -> NodeWorld {
         NodeWorld {
             core: Core::new(&self.epoch, self.own),
@@ -741,8 +792,11 @@ impl Sys for NodeSys {
             out.fatal = true;
             return out;
         }
-        if self.crash_focus.is_some() {
-            out.violations.clear();
+        if self.obligations && w.core.q.is_empty() {
+            self.check_obligations(w, &mut out);
+        }
+        if let Some(p) = self.crash_focus {
+            out.violations.retain(|(k, _)| k.starts_with(p));
         }
         if !out.violations.is_empty() {
             out.fatal = true;
